@@ -268,16 +268,22 @@ def patch_sqlite():
 
 
 class FakeWriter:
+    fault = 0        # 1: write() raises (nothing reaches the wire); 2: write() takes the bytes, drain() raises
+
     def __init__(self):
         self.closed = False
 
     def write(self, data):
         FX.pre()
+        if FakeWriter.fault == 1:
+            raise ConnectionResetError("transport refused the frame")
         FX.wire.append(bytes(data))
         FX.effect(frame_proj(bytes(data)) or [-1, 0, 0, 0, 0])
 
     async def drain(self):
         FX.pre()
+        if FakeWriter.fault == 2:
+            raise ConnectionResetError("connection reset while draining")
         FX.effect(1)
 
     def close(self):
@@ -304,6 +310,8 @@ def exc_code(e):
         return 3
     if isinstance(e, errors.DuplicatedTagError):
         return 4
+    if isinstance(e, ConnectionError):
+        return 5
     return [99, type(e).__name__]
 
 
@@ -409,7 +417,7 @@ class Adapter:
             raw = peer_frame(*op[1:6])
             m, _, rawm = self.codec.decode(raw)
             await c._process_message(m, rawm)
-        elif k == 2:
+        elif k in (2, 5):
             t, seq, pd, a, b = op[1:6]
             fm = FIXMessage(MT[t])
             if t == 0:
@@ -432,7 +440,12 @@ class Adapter:
                 fm.set(43, "Y")
                 if t != 4:
                     fm.set(34, str(seq))
-            await c.send_msg(fm)
+            if k == 5:
+                FakeWriter.fault = 2 if op[6] else 1
+            try:
+                await c.send_msg(fm)
+            finally:
+                FakeWriter.fault = 0
         elif k == 3:
             await c.disconnect(ConnectionState.DISCONNECTED_WCONN_TODAY, logout_message="bye" if op[1] else None)
         elif k == 4:
@@ -743,9 +756,10 @@ def policy(rng, role, st, nin, nout, peer, k):
             return [[1, 4, nin, 1, max(nin + 1, min(P, nin + rng.randrange(1, 5))), 1]]
         return [[1, 4, nin, 1, P, 1]]
     table = [
-        (0.20, "app"), (0.04, "hb"), (0.07, "treq"), (0.07, "gapapp"), (0.05, "gfnext"), (0.03, "gfself"),
-        (0.03, "gfhigh"), (0.03, "gflow"), (0.03, "reset"), (0.09, "rr"), (0.04, "logout"), (0.17, "send"),
+        (0.17, "app"), (0.04, "hb"), (0.07, "treq"), (0.07, "gapapp"), (0.05, "gfnext"), (0.03, "gfself"),
+        (0.03, "gfhigh"), (0.03, "gflow"), (0.03, "reset"), (0.09, "rr"), (0.04, "logout"), (0.14, "send"),
         (0.03, "sendsr"), (0.03, "discl"), (0.02, "disc"), (0.03, "restart"), (0.02, "low"), (0.02, "logon2"),
+        (0.025, "sendfw"), (0.035, "sendfd"),
     ]
     x, acc, kind = rng.random(), 0.0, "app"
     for w, name in table:
@@ -781,6 +795,10 @@ def policy(rng, role, st, nin, nout, peer, k):
         return [[1, 6, P, 0, 0, 0]]
     if kind == "send":
         return [[2, 0, 0, 0, k, 0]]
+    if kind in ("sendfw", "sendfd"):
+        # the transport raises in write() / in drain() after the write; often the endpoint is restarted next
+        ops = [[5, 0, 0, 0, k, 0, 1 if kind == "sendfd" else 0]]
+        return ops + ([[4]] if rng.random() < 0.5 else [])
     if kind == "sendsr":
         x = rng.random()
         if x < 0.25:
@@ -990,15 +1008,16 @@ def classify(h, pt, kind, detail=None):
     pre, dur = durable_prefix(h, pt)
     pkind, j, k, infl = pt
     if kind == "reuse" and detail:
-        # the number was carried before the restart by an application-sent SequenceReset only
+        # the number was carried before the restart only by application-sent frames that bring their own number
+        # (SequenceReset, PossDup) and do not consume it
         src = [e[0] for e in pre if isinstance(e[1], list) and e[1] in detail]
-        if src and all(ops[i][0] == 2 and ops[i][1] == 4 for i in src):
+        if src and all(ops[i][0] in (2, 5) and (ops[i][1] == 4 or ops[i][3]) for i in src):
             return "D20_app_sequence_reset_uncounted"
     if kind in ("reuse", "nout", "inactive"):
         # aftermath of D20: a later journal write of the old object hit the row an application-sent SequenceReset
         # left under a number it did not consume (DuplicateSeqNoError: the live counter moved, the stored one did not)
         for i in sorted({e[0] for e in dur}):
-            if ops[i][0] == 2 and ops[i][1] == 4 and not ops[i][3] and not ops[i][5]:
+            if ops[i][0] in (2, 5) and ops[i][1] == 4 and not ops[i][3] and not ops[i][5]:
                 for t in range(len(pre)):
                     failed = (pre[t + 1][1] != 13) if t + 1 < len(pre) else (not infl)
                     if pre[t][0] > i and pre[t][1] == 11 and failed:
@@ -1006,7 +1025,7 @@ def classify(h, pt, kind, detail=None):
     wout = last_writer(dur, (13, 14))
     if kind in ("reuse", "nout") and wout is not None:
         o = ops[wout]
-        if o[0] == 2 and o[1] == 4 and not o[3] and not o[5]:
+        if o[0] in (2, 5) and o[1] == 4 and not o[3] and not o[5]:
             return "D20_app_sequence_reset_uncounted"
     win = last_writer(dur, (12, 14))
     if kind in ("nin", "rr", "inactive") and win is not None:
@@ -1018,7 +1037,7 @@ def classify(h, pt, kind, detail=None):
     if kind == "inactive" and detail:
         # the new object's Logon hits a journal row left by an application-sent SequenceReset (DuplicateSeqNoError)
         for i in sorted({e[0] for e in dur}):
-            if ops[i][0] == 2 and ops[i][1] == 4 and not ops[i][3] and not ops[i][5] and ops[i][2] >= detail[1]:
+            if ops[i][0] in (2, 5) and ops[i][1] == 4 and not ops[i][3] and not ops[i][5] and ops[i][2] >= detail[1]:
                 return "D20_app_sequence_reset_uncounted"
     if kind in ("rr", "inactive"):
         # the first frame after which the endpoint's expected number and a correct receiver's differ
@@ -1037,7 +1056,7 @@ def classify(h, pt, kind, detail=None):
             # swallowed): the handler is aborted and the frame is not counted
             hit = any(pre[t][0] == nxt and pre[t][1] == 11 and (t + 1 >= len(pre) or pre[t + 1][1] != 13)
                       for t in range(len(pre)))
-            if hit and any(ops[i][0] == 2 and ops[i][1] == 4 and not ops[i][3] and not ops[i][5] for i in range(nxt)):
+            if hit and any(ops[i][0] in (2, 5) and ops[i][1] == 4 and not ops[i][3] and not ops[i][5] for i in range(nxt)):
                 return "D20_app_sequence_reset_uncounted"
             if ops[nxt][1] == 4 and (ops[nxt][2] != live_before(h, nxt)[0] or ops[nxt][4] != ops[nxt][2] + 1):
                 return "D11_sequence_reset_stored_lag"
@@ -1074,7 +1093,7 @@ def oracle(h, p):
             if not lo <= rest[idx] <= hi:
                 bad.append((kd, "death inside operation %d: restored %s %d is outside [%d, %d] (the object's value before / after it)"
                             % (j, name, rest[idx], lo, hi), None))
-        lost_free = h["ops"][j][0] in (2, 3) and peer_at(h, j - 1)[0] == peer_at(h, j - 1)[1]
+        lost_free = h["ops"][j][0] in (2, 3, 5) and peer_at(h, j - 1)[0] == peer_at(h, j - 1)[1]
     if lost_free:
         ls = res["steps"][logon_step(role)]
         rr = [f for f in res["wire"] if f is not None and f[0] == 3]
@@ -1199,6 +1218,13 @@ CURATED = [
     (2, LOGON_A + [[2, 0, 0, 0, 1, 0], [3, 1], [4], [0], [1, 5, 2, 0, 0, 0], [2, 0, 0, 0, 2, 0]]),
     (1, LOGON_I + [[1, 0, 2, 0, 1, 0], [4], [0], [2, 5, 0, 0, 0, 0], [1, 5, 3, 0, 0, 0], [1, 0, 4, 0, 2, 0]]),
     (2, LOGON_A + [[1, 0, 2, 0, 1, 0], [1, 0, 1, 0, 2, 0]]),
+    # the transport raises in write() / in drain() after the write of a send; the object lives on, later restart
+    (1, LOGON_I + [[2, 0, 0, 0, 1, 0], [5, 0, 0, 0, 2, 0, 1], [4], [0], [2, 5, 0, 0, 0, 0], [1, 5, 2, 0, 0, 0]]),
+    (1, LOGON_I + [[2, 0, 0, 0, 1, 0], [5, 0, 0, 0, 2, 0, 0], [4], [0], [2, 5, 0, 0, 0, 0], [1, 5, 2, 0, 0, 0]]),
+    (2, LOGON_A + [[5, 0, 0, 0, 1, 0, 1], [2, 0, 0, 0, 2, 0], [1, 3, 2, 0, 2, 0]]),
+    (2, LOGON_A + [[5, 0, 0, 0, 1, 0, 0], [2, 0, 0, 0, 2, 0], [1, 3, 2, 0, 2, 0]]),
+    (2, [[0], [5, 5, 0, 0, 0, 0, 1], [4], [0], [1, 5, 1, 0, 0, 0]]),
+    (2, LOGON_A + [[5, 4, 2, 0, 4, 1, 1], [5, 0, 2, 1, 1, 0, 1], [2, 0, 0, 0, 1, 0]]),
     # non-Logon traffic before the Logon exchange has completed: dropped / refused
     (1, [[0], [2, 5, 0, 0, 0, 0], [1, 0, 1, 0, 5, 0], [0], [2, 5, 0, 0, 0, 0], [1, 5, 2, 0, 0, 0]]),
     (1, [[0], [2, 5, 0, 0, 0, 0], [1, 2, 1, 0, 7, 0]]),
@@ -1232,6 +1258,10 @@ WITNESSES = {
     "C09_send_crash_points@12": (2, LOGON_A + [[2, 0, 0, 0, 9, 0]], ["c", 2, 12, True],
                                  lambda h, res: res["restored"][1] == 3 and [0, 2, 0, 9, 0] in res["old_wire"]
                                  and [5, 3, 0, 0, 0] in res["wire"]),
+    "C09_drain_fault_then_restart": (1, LOGON_I + [[2, 0, 0, 0, 1, 0], [5, 0, 0, 0, 2, 0, 1]], ["g", 4, -1, False],
+                                     lambda h, res: h["steps"][4][0] == 5 and h["steps"][4][3] == 4 and h["steps"][4][5] == 3
+                                     and res["restored"][1] == 4 and [0, 3, 0, 2, 0] in res["old_wire"]
+                                     and [5, 4, 0, 0, 0] in res["wire"]),
     "C09_duplicate_inbound_row": (2, LOGON_A + [[1, 4, 2, 0, 2, 1], [1, 0, 2, 0, 1, 0]], ["g", 3, -1, False],
                                   lambda h, res: h["steps"][3][0] == 2 and h["steps"][3][2] == 3 and h["steps"][3][4] == 2),
 }
@@ -1277,8 +1307,8 @@ def evaluate(ctx, hists, use_model=True):
         outs_all = [flat_out[a:a + n] for a, n in spans]
     for idx, h in enumerate(hists):
         for o in h["ops"]:
-            ctx.count("op:%s" % (["connect", "in", "send", "disconnect", "restart"][o[0]]
-                                 + ("" if o[0] not in (1, 2) else ":" + MT[o[1]])))
+            ctx.count("op:%s" % (["connect", "in", "send", "disconnect", "restart", "send-fault"][o[0]]
+                                 + ("" if o[0] not in (1, 2, 5) else ":" + MT[o[1]])))
         ctx.count("role:%d" % h["role"])
         ctx.traces += 1
         if outs_all is not None:
@@ -1293,7 +1323,7 @@ def evaluate(ctx, hists, use_model=True):
             ctx.count("point:" + ("graceful" if kind == "g" else ("inside-op" if infl else "boundary-death")))
             if infl:
                 o = h["ops"][j]
-                ctx.count("inside:" + ["connect", "in", "send", "disconnect", "restart"][o[0]])
+                ctx.count("inside:" + ["connect", "in", "send", "disconnect", "restart", "send-fault"][o[0]])
             if "sim_mismatch" in p:
                 ctx.disagree(case_of(h, p), p["sim_mismatch"], None, "simulated-death-vs-real-death")
             ctx.count("death:" + p["how"])
